@@ -546,12 +546,14 @@ void
 BinaryFileReader::
 read_propdir_chunk(Decoder &reader)
 {
-    if (props_.size() != 0) {
+    if (propdir_chunk_read_ || props_.size() != 0) {
         // we can only have one property directory!
         error_msg_ = "File invalid: contains multiple property directories (DIRP chunk).";
         state_ = ReadState::ErrorInvalidFile; // TODO more specific error
         return;
     }
+    // an empty directory counts as well
+    propdir_chunk_read_ = true;
     while (reader.remaining_bytes() > 0)
     {
         PropertyInfo prop_info;
